@@ -300,6 +300,7 @@ def c16(tier, seed):
             "Lclose": close("liq"),
             "C": opn("tr1", "buy", 100, 1000, funds=100 if native else 0),
             "Cclose": close("tr1"),
+            "B2": close("tr3"),
             "N": block(15),
             "PF": tx("engine", "pay_funding", "stranger", dict(vamm="vamm1")),
         }
@@ -327,9 +328,10 @@ def c16(tier, seed):
         for plr in (0, 25, 50):
             for push in (3200, 3600, 4000, 4400, 5000):
                 for sq in (("Lq", "Cclose"), ("Lq", "C"), ("Lq", "N", "Cclose"), ("A", "N", "A2", "Lq", "A"),
-                           ("A", "N", "A2", "Lq", "N", "A"), ("B", "N", "Lq", "B"), ("Lq", "Cclose", "C")):
+                           ("A", "N", "A2", "Lq", "N", "A"), ("B", "N", "Lq", "B"), ("Lq", "Cclose", "C"),
+                           ("B", "N", "B2", "Lq", "B"), ("B", "N", "B2", "Lq", "N", "B")):
                     ops = underwater_prefix(native, push=push) + [acts[a] for a in sq]
-                    out.append(dict(id="c16-%d" % k, deploy=dep(coll, engine=dict(plr=plr, liqfee=1, mmr=10, imr=10)), ops=ops))
+                    out.append(dict(id="c16-%d" % k, deploy=dep(coll, engine=dict(plr=plr, liqfee=1, mmr=8, imr=8)), ops=ops))
                     k += 1
     return out
 
